@@ -431,3 +431,30 @@ def test_K11_shared_memory_flush_writes_the_buffered_contents(fn):
         # a's context exits first and flushes the file
     assert json.load(open(fn)) == {"y": 2}
     assert b() == {"y": 2}
+
+
+def test_K12_forced_flush_keeps_the_baseline_of_entries_it_did_not_write(tmp_path):
+    import time
+
+    cls = MemoryBufferedJSONDict
+    fa = str(tmp_path / "a.json")
+    a = cls(fa)
+    a["x"] = 0
+    others = [cls(str(tmp_path / f"o{i}.json")) for i in range(2)]
+    cap = cls.get_buffer_capacity()
+    try:
+        with pytest.raises(BufferedError):
+            with cls.buffer_backend(1):
+                a["x"]  # a enters the buffer, unmodified
+                time.sleep(0.01)
+                with open(fa, "w") as f:
+                    f.write('{"x": 0, "foreign": 123456}')  # outside writer
+                for o in others:
+                    o["k"] = 1  # capacity exceeded: the forced flush visits a (unmodified)
+                a["y"] = 1  # a modified on its stale copy
+        assert json.load(open(fa)) == {"x": 0, "foreign": 123456}
+    finally:
+        cls.set_buffer_capacity(cap)
+        cls._buffer.clear()
+        cls._buffered_collections.clear()
+        cls._CURRENT_BUFFER_SIZE = 0
